@@ -359,7 +359,43 @@ def _lv_of(E, t, st):
 def x_If(E, node, st):
     for s, c in E.ev(node.test, st):
         for br, s2 in E.branch(s, E.truthy(c, s)):
+            narrow(E, node.test, br, s2)
             yield from exec_block(E, node.body if br else node.orelse, s2)
+
+
+def narrow(E, test, truth, st):
+    """Optional-typed locals whose None-ness is decided by the branch condition are rebound to the unwrapped value"""
+    if isinstance(test, ast.UnaryOp) and isinstance(test.op, ast.Not):
+        narrow(E, test.operand, not truth, st)
+        return
+    if isinstance(test, ast.BoolOp):
+        if isinstance(test.op, ast.And) and truth:
+            for v in test.values:
+                narrow(E, v, True, st)
+        if isinstance(test.op, ast.Or) and not truth:
+            for v in test.values:
+                narrow(E, v, False, st)
+        return
+    name, positive = None, None
+    if isinstance(test, ast.Compare) and len(test.ops) == 1 and isinstance(test.comparators[0], ast.Constant) and test.comparators[0].value is None:
+        tgt = test.left.target if isinstance(test.left, ast.NamedExpr) else test.left
+        if isinstance(tgt, ast.Name):
+            name = tgt.id
+            positive = isinstance(test.ops[0], ast.IsNot)     # `x is not None` true -> not None
+            if not isinstance(test.ops[0], (ast.Is, ast.IsNot)):
+                return
+            known_some = (truth == positive)
+    elif isinstance(test, (ast.Name, ast.NamedExpr)):
+        tgt = test.target if isinstance(test, ast.NamedExpr) else test
+        if isinstance(tgt, ast.Name):
+            name = tgt.id
+            known_some = truth            # truthy => not None
+    if name is None or name not in st.env:
+        return
+    v = st.env[name]
+    if isinstance(v, SVal) and isinstance(v.ty, TOpt) and known_some:
+        dt = E.U.dt(v.ty)
+        st.env[name] = SVal(dt.get(v.t), v.ty.inner, v.origin)
 
 
 def x_With(E, node, st):
